@@ -31,6 +31,17 @@ pub fn tls_dir() -> std::path::PathBuf {
 }
 
 pub fn acceptor(cert: Cert) -> Result<tokio_native_tls::TlsAcceptor, String> {
+    static A: std::sync::OnceLock<std::sync::Mutex<std::collections::HashMap<Cert, tokio_native_tls::TlsAcceptor>>> = std::sync::OnceLock::new();
+    let m = A.get_or_init(Default::default);
+    if let Some(a) = m.lock().unwrap().get(&cert) {
+        return Ok(a.clone());
+    }
+    let a = build_acceptor(cert)?;
+    m.lock().unwrap().insert(cert, a.clone());
+    Ok(a)
+}
+
+fn build_acceptor(cert: Cert) -> Result<tokio_native_tls::TlsAcceptor, String> {
     let dir = tls_dir();
     let pem = std::fs::read(dir.join(format!("{}.pem", cert.file()))).map_err(|e| format!("read cert: {}", e))?;
     let key = std::fs::read(dir.join(format!("{}.key", cert.file()))).map_err(|e| format!("read key: {}", e))?;
@@ -41,6 +52,12 @@ pub fn acceptor(cert: Cert) -> Result<tokio_native_tls::TlsAcceptor, String> {
 
 /// A client connector that trusts only the test CA.
 pub fn ca_connector() -> Result<native_tls::TlsConnector, String> {
+    // building a connector parses the system trust store (tens of ms of CPU): build once, clone
+    static C: std::sync::OnceLock<Result<native_tls::TlsConnector, String>> = std::sync::OnceLock::new();
+    C.get_or_init(build_ca_connector).clone()
+}
+
+fn build_ca_connector() -> Result<native_tls::TlsConnector, String> {
     let ca = std::fs::read(tls_dir().join("ca.pem")).map_err(|e| format!("read ca: {}", e))?;
     let ca = native_tls::Certificate::from_pem(&ca).map_err(|e| format!("ca: {}", e))?;
     native_tls::TlsConnector::builder().add_root_certificate(ca).disable_built_in_roots(true).build().map_err(|e| format!("connector: {}", e))
